@@ -5,7 +5,7 @@ import os
 from vf.explore import Explorer, Pruned, determinism_probe
 from vf.ref import p2p_ref as R
 from vf.runner import Acc, filler
-from vf.sched import Sched
+from vf.sched import Sched, own_synchronisation
 
 PROPERTY = "C18"
 LEVEL = "model_checking"
@@ -121,6 +121,7 @@ def build(seed, script):
     """script: list (per peer) of list of message names -> (node, socks, expectations)"""
     p2p = _p2p()
     p2p.MAGIC_START_BYTES = MAGIC
+    own_synchronisation([p2p])        # locks/semaphores/events the library creates become cooperative (vf/sched.py)
     node = p2p.Node()
     socks = []
     for peer, names in enumerate(script):
@@ -174,6 +175,7 @@ def execute(ctx, seed, script, want, opcodes=None, horizon=40000):
         "closed": [k.closed for k in socks],
         "errors": {t: f"{type(e).__name__}: {e}" for t, e in sch.errors.items()},
         "abort": sch.abort,
+        "deadlock": sch.deadlock,
         "peer_data": {k: dict(v) for k, v in node._peer_data.items()},
         "switches": sch.switches,
         "steps": sch.steps,
@@ -184,6 +186,8 @@ def execute(ctx, seed, script, want, opcodes=None, horizon=40000):
 def _c(v):
     if v is None or isinstance(v, (bytes, int, str, bool)):
         return v
+    if hasattr(v, "_coop_state"):
+        return v._coop_state()
     return repr(v) if isinstance(v, (list, dict, tuple, set, frozenset)) else type(v).__name__
 
 
@@ -192,6 +196,8 @@ def judge(seed, script, obs):
     out = []
     if obs["abort"] == "horizon":
         return [("C18/termination/horizon", f"threads still running after {obs['steps']} scheduling points")]
+    if obs["abort"] == "deadlock":
+        return [("C18/termination/deadlock", f"receive threads deadlock: {obs.get('deadlock')}")]
     if obs["errors"]:
         return [("C18/thread-raised", f"receive thread(s) died: {obs['errors']}")]
     q = obs["queue"]
